@@ -7,7 +7,7 @@ CFG = {
     "rule": "one case = one input slice followed by every algorithm run on a fresh copy of it. "
             "exhaustive: every slice of length <= 7 (thorough: 9) over keys {-1,0,1} tagged by position "
             "(comparator ignores the tag) x {Selection, Insertion, Shell, Merge, MergeRec, Quick3Way, Heap, unshuffled quick, "
-            "Quick, quick after a scripted Shuffle, Shuffle, Select k for every k, partition, merge}; every slice of length <= 4 (6) over "
+            "Quick, quick after a scripted Shuffle, Shuffle, Select k for every k, partition, merge}; every slice of length <= 3 (4) over "
             "{MinInt64,-1,0,1,MaxInt64} x {LSDInt, MSDInt, LSDUint, MSDUint}; every slice of length <= 4 (5) over 6 short strings and "
             "<= 3 (4) over 8 two-byte strings with 0x00/0xff x {MSDString, Quick3WayString (+unshuffled core), LSDString}. "
             "random: lengths 0-13, 14-18, 19-60 and 30-300 (both sides of the insertion cutoff 15); key shapes: uniform small/large range, "
